@@ -116,7 +116,7 @@ def lemmas():
         for n, tier in ((12, "quick"), (24, "thorough")):
             out.append(Lemma(name="C16.%s.n%d" % (e, n), src="spelling.c", entry="h_" + e, props=["C16"], timeout=1800 if tier == "quick" else 3600, ghosts=["g_p"], defs={"SPL": str(n)}, unwind=110,
                              tier=tier, bounded=SPB(n), functions=["filter_assembly_str_fsa"], desc="2-run lemma on the real filter: " + what))
-    out.append(Lemma(name="C16.blank_after_mnemonic", src="spelling.c", entry="h_blank_after_mnemonic", props=["C16"], timeout=900, defs={"SPL": "16"}, unwind=110,
+    out.append(Lemma(name="C16.blank_after_mnemonic", src="spelling.c", entry="h_blank_after_mnemonic", props=["C16"], timeout=900, defs={"SPL": "16"}, unwind=40, unwindset="strncpy.0:16,h_blank_after_mnemonic.0:101,h_blank_after_mnemonic.1:18,h_blank_after_mnemonic.2:16", replace=["operand_tok/operand_tok__never"],
                      bounded="mnemonic text of up to 16 symbolic characters", functions=["instr_tok"],
                      desc="a blank directly behind an operand-less mnemonic: the real tokenizer yields the same record with and without it"))
     out.append(Lemma(name="C16.skip", src="spelling.c", entry="h_skip", props=["C16", "C06"], timeout=1800, ghosts=["g_p"], defs={"SPL": "16"}, unwind=110,
